@@ -353,3 +353,9 @@ Proof.
     + cbn [resolve_st] in Hr. injection Hr as <-. exact Hc.
   - prj. rewrite E3, Hl in Hl'. discriminate.
 Qed.
+
+(** * Reachable states *)
+Definition reach (ch bu cq rb ver maxp : N) (acts : list act) : ep :=
+  run acts (ep_init (mux_init ch bu cq rb ver) maxp).
+Lemma WF_reach ch bu cq rb ver maxp acts : WF (reach ch bu cq rb ver maxp acts).
+Proof. apply WF_run, WF_init. Qed.
